@@ -168,13 +168,23 @@ theorem plainError_E (c : Conn) : E c c.plainError.1 := by
         | none => exact E.of_data c _ (hs.trans (rollback_dataOnly db1))
     · exact E.refl c
 
+theorem kbiError_E (c : Conn) : E c c.kbiError.1 := by
+  unfold Conn.kbiError
+  simp only []
+  split
+  · exact E.refl c
+  · exact Evo.kill
+
 theorem dbapiError_E (c : Conn) (k : FKind) : E c (c.dbapiError k).1 := by
   unfold Conn.dbapiError
   split
-  · exact discError_E c
-  · cases k with
-    | disc => exact discError_E c
-    | err => exact plainError_E c
+  · exact kbiError_E c
+  · split
+    · exact discError_E c
+    · cases k with
+      | disc => exact discError_E c
+      | err => exact plainError_E c
+      | kbi => exact plainError_E c
 
 theorem dbapiCall_E (c : Conn) (p : FPoint) (f : DB → DB) (hf : ∀ db, DataOnly db (f db)) :
     E c (c.dbapiCall p f).1 := by
